@@ -405,7 +405,7 @@ func (e *env) runForged(fc *forgedCase) {
 	default:
 		r.Count("forged_probe_other_verdict/"+v.Kind, 1)
 	}
-	if r.Counter("forged_entries_filed") <= 6 {
+	if r.Counter("forged_entries_filed") <= 3 {
 		r.Sample(map[string]any{"case": fc, "variant": e.v.Name, "verdict": v.Kind, "stub_calls": o.StubCalls})
 	}
 
@@ -557,7 +557,8 @@ type failureCase struct {
 
 func genFailure(rng *rand.Rand, idx int, v cfgVariant) *failureCase {
 	specs := []subSpec{{"name", "letter"}, {"name", "hi-case"}, {"name", "punct-case"}, {"type", ""}, {"class", ""}, {"cd", ""},
-		{"scope", "scoped-under-shared"}, {"scope", "addr"}, {"kind", "zone-slot"}, {"cd", ""}, {"scope", "scoped-under-shared"}}
+		{"scope", "scoped-under-shared"}, {"scope", "addr"}, {"kind", "zone-slot"}, {"cd", ""}, {"scope", "scoped-under-shared"},
+		{"name", "label-cut"}}
 	sp := specs[idx%len(specs)]
 	fc := &failureCase{Kind: "failure", Index: idx, Dim: sp.dim, Sub: sp.sub}
 	zone := fmt.Sprintf("f%d.%s", idx, baseZone)
@@ -678,6 +679,9 @@ func (e *env) runFailure(fc *failureCase) {
 	if v3.Kind == "fresh" || v3.Kind == "miss" {
 		r.Count("forged_behaved_as_miss", 1)
 		r.Distinct(fmt.Sprintf("failure|%s|%s|%s|%s", e.v.Name, fc.Dim, fc.Sub, fc.Route))
+	}
+	if fc.Sub != "" {
+		r.Count("forged_probe_sub/failure-"+fc.Sub, 1)
 	}
 }
 
